@@ -79,7 +79,7 @@ const LOG_TARGET: &str = "litep2p::transport-manager";
 /// Verification hooks: re-exports of crate-private address-book items and thin wrappers around the
 /// private address-update functions of [`TransportManager`] for the external harness. Adds code only.
 #[cfg(feature = "verif")]
-pub mod verif {
+pub mod verif_addr {
     pub use super::{
         address::{scores, AddressRecord, AddressStore},
         handle::TransportManagerHandle,
